@@ -292,4 +292,54 @@ def GMethod.listingFiltered (m : GMethod) : Bool :=
   !m.listing || m.filters ||
   (!m.touchesRaw && !m.delegates.isEmpty && m.delegates.all fun d => listingNames.contains d)
 
+/-! ## Raw operations and the user view (flat tree)
+
+The raw container as a flat list of named nodes; `userView` is what the wrapper lets the user
+see (`is_internal_path(node.name)` filtered out). Raw operations: create a node, delete a node
+with everything below it, copy a node with everything below it to a new name, move = copy +
+delete. User operations and the bookkeeping (`MetadorMeta`, `TOCLinks`, `TOCSchemas`,
+`TOCPackages`: creations / deletions / moves of nodes below `metador_meta_*` directories and
+`/metador_container`) are both sequences of such raw operations. -/
+
+def userView (raw : Raw) : Raw := raw.filter fun nd => !isInternalPath nd.name
+
+/-- `n` is `p` itself or lies below it; the remainder (`[]` or `"/…"`) -/
+def suffixBelow (p n : Str) : Option Str :=
+  match stripPrefix p n with
+  | some [] => some []
+  | some ('/' :: r) => some ('/' :: r)
+  | _ => none
+
+inductive RawOp where
+  | create (n : RawNode)
+  | delete (p : Str)
+  | copy (src dst : Str)
+  | move (src dst : Str)
+deriving Repr
+
+def rawDelete (p : Str) (raw : Raw) : Raw := raw.filter fun nd => (suffixBelow p nd.name).isNone
+
+def rawCopy (src dst : Str) (raw : Raw) : Raw :=
+  raw ++ raw.filterMap fun nd => (suffixBelow src nd.name).map fun r => ⟨dst ++ r, nd.isGroup⟩
+
+def applyRaw : RawOp → Raw → Raw
+  | .create n, raw => raw ++ [n]
+  | .delete p, raw => rawDelete p raw
+  | .copy s d, raw => rawCopy s d raw
+  | .move s d, raw => rawDelete s (rawCopy s d raw)
+
+/-- a user operation: every path it names is free of reserved segments -/
+def RawOp.isUser : RawOp → Bool
+  | .create n => !isInternalPath n.name
+  | .delete p => !isInternalPath p
+  | .copy s d => !isInternalPath s && !isInternalPath d
+  | .move s d => !isInternalPath s && !isInternalPath d
+
+/-- a bookkeeping operation: what it creates / deletes / moves lies in the reserved namespace -/
+def RawOp.isBookkeeping : RawOp → Bool
+  | .create n => isInternalPath n.name
+  | .delete p => isInternalPath p
+  | .copy _ d => isInternalPath d
+  | .move s d => isInternalPath s && isInternalPath d
+
 end MetadorModel.Paths
